@@ -120,3 +120,291 @@ func UntransferredNonZero(v reflect.Value) string {
 	}
 	return ""
 }
+
+// RefUnfold is the reference reading of property C13 for one (stream value, typed target)
+// pair: it assigns sv to dst (addressable, pre-initialised) the way the statement demands.
+// It returns false (with a reason) where the statement makes no promise (shape mismatch, a
+// number that does not fit, duplicate members for one field): then only "no crash" applies.
+func RefUnfold(sv Value, dst reflect.Value) (bool, string) {
+	switch dst.Kind() {
+	case reflect.Interface:
+		if dst.Type().NumMethod() != 0 {
+			return false, "non-empty interface"
+		}
+		g := generic(sv)
+		if g == nil {
+			dst.Set(reflect.Zero(dst.Type()))
+		} else {
+			dst.Set(reflect.ValueOf(g))
+		}
+		return true, ""
+	case reflect.Bool:
+		if sv.K != VBool {
+			return false, "not a bool"
+		}
+		dst.SetBool(sv.B)
+		return true, ""
+	case reflect.String:
+		if sv.K != VStr {
+			return false, "not a string"
+		}
+		dst.SetString(sv.S)
+		return true, ""
+	case reflect.Int, reflect.Int8, reflect.Int16, reflect.Int32, reflect.Int64:
+		if sv.K != VInt || sv.Big {
+			return false, "not an integer"
+		}
+		var i int64
+		if sv.Neg {
+			if sv.Mag > 1<<63 {
+				return false, "does not fit"
+			}
+			i = -int64(sv.Mag-1) - 1
+		} else {
+			if sv.Mag > 1<<63-1 {
+				return false, "does not fit"
+			}
+			i = int64(sv.Mag)
+		}
+		if dst.OverflowInt(i) {
+			return false, "does not fit"
+		}
+		dst.SetInt(i)
+		return true, ""
+	case reflect.Uint, reflect.Uint8, reflect.Uint16, reflect.Uint32, reflect.Uint64:
+		if sv.K != VInt || sv.Big || (sv.Neg && sv.Mag != 0) {
+			return false, "not a non-negative integer"
+		}
+		if dst.OverflowUint(sv.Mag) {
+			return false, "does not fit"
+		}
+		dst.SetUint(sv.Mag)
+		return true, ""
+	case reflect.Float32, reflect.Float64:
+		var f float64
+		switch sv.K {
+		case VF64:
+			f = f64frombits(sv.Bits)
+		case VF32:
+			f = float64(f32frombits(uint32(sv.Bits)))
+		case VInt:
+			if sv.Big || sv.Mag > 1<<53 {
+				return false, "integer not exactly representable"
+			}
+			f = float64(sv.Mag)
+			if sv.Neg {
+				f = -f
+			}
+		default:
+			return false, "not a number"
+		}
+		if dst.Kind() == reflect.Float32 && float64(float32(f)) != f && f == f {
+			return false, "does not fit float32"
+		}
+		dst.SetFloat(f)
+		return true, ""
+	case reflect.Ptr:
+		if sv.K == VNull {
+			dst.Set(reflect.Zero(dst.Type()))
+			return true, ""
+		}
+		p := reflect.New(dst.Type().Elem())
+		if ok, why := RefUnfold(sv, p.Elem()); !ok {
+			return false, why
+		}
+		dst.Set(p)
+		return true, ""
+	case reflect.Slice:
+		if sv.K != VArr {
+			return false, "not an array"
+		}
+		s := reflect.MakeSlice(dst.Type(), len(sv.Elems), len(sv.Elems))
+		for i, e := range sv.Elems {
+			if ok, why := RefUnfold(e, s.Index(i)); !ok {
+				return false, why
+			}
+		}
+		dst.Set(s)
+		return true, ""
+	case reflect.Map:
+		if sv.K != VObj || dst.Type().Key().Kind() != reflect.String {
+			return false, "not an object / no string keys"
+		}
+		if dst.IsNil() {
+			dst.Set(reflect.MakeMap(dst.Type()))
+		}
+		for i, e := range sv.Elems {
+			el := reflect.New(dst.Type().Elem()).Elem()
+			if ok, why := RefUnfold(e, el); !ok {
+				return false, why
+			}
+			dst.SetMapIndex(reflect.ValueOf(sv.Keys[i]).Convert(dst.Type().Key()), el)
+		}
+		return true, ""
+	case reflect.Struct:
+		if sv.K != VObj {
+			return false, "not an object"
+		}
+		fields := map[string]reflect.Value{}
+		if !collectFields(dst, fields) {
+			return false, "unsupported struct layout"
+		}
+		seen := map[string]bool{}
+		for i, e := range sv.Elems {
+			f, ok := fields[sv.Keys[i]]
+			if !ok {
+				continue // unknown member: skipped with its whole value
+			}
+			if seen[sv.Keys[i]] {
+				return false, "member delivered twice"
+			}
+			seen[sv.Keys[i]] = true
+			if ok, why := RefUnfold(e, f); !ok {
+				return false, why
+			}
+		}
+		return true, ""
+	}
+	return false, "unsupported target kind"
+}
+
+func collectFields(v reflect.Value, out map[string]reflect.Value) bool {
+	t := v.Type()
+	for i := 0; i < t.NumField(); i++ {
+		sf := t.Field(i)
+		if !exported(sf.Name) {
+			continue
+		}
+		name, omit, _, inline := ParseTag(sf.Tag.Get("struct"))
+		if omit {
+			continue
+		}
+		if inline {
+			if sf.Type.Kind() != reflect.Struct || !collectFields(v.Field(i), out) {
+				return false
+			}
+			continue
+		}
+		if name == "" {
+			name = strings.ToLower(sf.Name)
+		}
+		if _, dup := out[name]; dup {
+			return false
+		}
+		out[name] = v.Field(i)
+	}
+	return true
+}
+
+func generic(sv Value) interface{} {
+	switch sv.K {
+	case VNull:
+		return nil
+	case VBool:
+		return sv.B
+	case VStr:
+		return sv.S
+	case VInt:
+		if sv.Neg {
+			return -int64(sv.Mag-1) - 1
+		}
+		if sv.Mag > 1<<63-1 {
+			return sv.Mag
+		}
+		return int64(sv.Mag)
+	case VF32:
+		return f32frombits(uint32(sv.Bits))
+	case VF64:
+		return f64frombits(sv.Bits)
+	case VArr:
+		out := make([]interface{}, 0, len(sv.Elems))
+		for _, e := range sv.Elems {
+			out = append(out, generic(e))
+		}
+		return out
+	case VObj:
+		out := map[string]interface{}{}
+		for i, e := range sv.Elems {
+			out[sv.Keys[i]] = generic(e)
+		}
+		return out
+	}
+	return nil
+}
+
+// SameGo compares two Go values of the same static type: nil and empty slices/maps are
+// identified, the contents of interfaces are compared as values of the data model (so generic
+// data may come in any Go representation), floats by bits, everything else structurally.
+// It returns the path of the first difference.
+func SameGo(a, b reflect.Value) (bool, string) {
+	if a.Type() != b.Type() {
+		return false, fmt.Sprintf("types %v / %v", a.Type(), b.Type())
+	}
+	switch a.Kind() {
+	case reflect.Interface:
+		if a.IsNil() || b.IsNil() {
+			if a.IsNil() != b.IsNil() {
+				return false, "nil interface"
+			}
+			return true, ""
+		}
+		fa, fb := RefFold(a.Interface()), RefFold(b.Interface())
+		if fa.Refuse || fb.Refuse || !Equal(fa.V, fb.V, Exact) {
+			return false, fmt.Sprintf("interface holds %s / %s", fa.V, fb.V)
+		}
+		return true, ""
+	case reflect.Ptr:
+		if a.IsNil() || b.IsNil() {
+			if a.IsNil() != b.IsNil() {
+				return false, "nil pointer"
+			}
+			return true, ""
+		}
+		return SameGo(a.Elem(), b.Elem())
+	case reflect.Slice, reflect.Array:
+		if a.Len() != b.Len() {
+			return false, fmt.Sprintf("len %d / %d", a.Len(), b.Len())
+		}
+		for i := 0; i < a.Len(); i++ {
+			if ok, p := SameGo(a.Index(i), b.Index(i)); !ok {
+				return false, fmt.Sprintf("[%d].%s", i, p)
+			}
+		}
+		return true, ""
+	case reflect.Map:
+		if a.Len() != b.Len() {
+			return false, fmt.Sprintf("map len %d / %d", a.Len(), b.Len())
+		}
+		for _, k := range a.MapKeys() {
+			bv := b.MapIndex(k)
+			if !bv.IsValid() {
+				return false, fmt.Sprintf("key %v missing", k)
+			}
+			if ok, p := SameGo(a.MapIndex(k), bv); !ok {
+				return false, fmt.Sprintf("[%v].%s", k, p)
+			}
+		}
+		return true, ""
+	case reflect.Struct:
+		for i := 0; i < a.NumField(); i++ {
+			if ok, p := SameGo(access(a.Field(i)), access(b.Field(i))); !ok {
+				return false, a.Type().Field(i).Name + "." + p
+			}
+		}
+		return true, ""
+	case reflect.Float32, reflect.Float64:
+		if f64bits(a.Float()) != f64bits(b.Float()) {
+			return false, fmt.Sprintf("%v / %v", a.Float(), b.Float())
+		}
+		return true, ""
+	case reflect.String:
+		return a.String() == b.String(), fmt.Sprintf("%q / %q", a.String(), b.String())
+	case reflect.Bool:
+		return a.Bool() == b.Bool(), "bool"
+	case reflect.Int, reflect.Int8, reflect.Int16, reflect.Int32, reflect.Int64:
+		return a.Int() == b.Int(), fmt.Sprintf("%d / %d", a.Int(), b.Int())
+	case reflect.Uint, reflect.Uint8, reflect.Uint16, reflect.Uint32, reflect.Uint64, reflect.Uintptr:
+		return a.Uint() == b.Uint(), fmt.Sprintf("%d / %d", a.Uint(), b.Uint())
+	}
+	return true, ""
+}
